@@ -163,6 +163,9 @@ def _contexts(F, multiline):
         ("elif-cond", lambda h: [F.If([[one()], [h], [two()]])]),
         ("elif-body", lambda h: [F.If([[one()], [two()], [h]])]),
         ("if-4-else", lambda h: [F.If([[one()], [two()], [one()], [h]])]),
+        ("if-5-second-elif-body", lambda h: [F.If([[one()], [two()], [one()], [two()], [h]])]),
+        ("if-6-else", lambda h: [F.If([[one()], [two()], [one()], [two()], [one()], [h]])]),
+        ("if-7-third-elif-cond", lambda h: [F.If([[one()], [two()], [one()], [two()], [one()], [h], [two()]])]),
         ("for-body", lambda h: [F.For(None, [h])]),
         ("for-named", lambda h: [F.For("i", [h])]),
         ("while-cond", lambda h: [F.While([h], [one()])]),
